@@ -449,13 +449,23 @@ class Peg(object):
             raise Inconclusive("primitive parser %s has no denotation" % n)
         if k == "take_while":
             lo, hi = p.extra
-            if hi is not None:
-                raise Inconclusive("bounded take_while")
             clo = p.args[0]
             cl = self.classes.get(("closure", clo.key))
             if cl is None:
                 raise Inconclusive("character class of %s unknown" % clo.key)
-            return self.cls_plus(cl, lo)
+            if hi is None:
+                return self.cls_plus(cl, lo)
+            if (lo, hi) == (1, 1):          # one_of
+                c = L.sym(cl)
+                return L.seq(c, L.mark(), L.sigma_star()), diff(L.sigma_star(), L.concat(c, L.sigma_star()))
+            raise Inconclusive("bounded take_while %r" % (p.extra,))
+        if k == "repeat":
+            lo, hi = p.extra
+            if hi is not None or lo > 1:
+                raise Inconclusive("repeat with range %r" % (p.extra,))
+            E = self.den(p.args[0])
+            st = self.star(E)
+            return self.seq2(E, st) if lo == 1 else st
         if k == "ref":
             if p.extra not in self.g:
                 raise Inconclusive("grammar function %s not extracted" % p.extra)
@@ -579,6 +589,12 @@ def eval_peg(g, classes, p, w, i):
             cl = classes[cl]
         else:
             cl, lo = classes[("closure", p.args[0].key)], p.extra[0]
+            if p.extra[1] is not None:
+                hi = p.extra[1]
+                j = i
+                while j < len(w) and w[j] in cl and j - i < hi:
+                    j += 1
+                return j if j - i >= lo else None
         j = i
         while j < len(w) and w[j] in cl:
             j += 1
@@ -618,6 +634,17 @@ def eval_peg(g, classes, p, w, i):
             if e is None:
                 return j
             j = e
+    if k == "repeat":
+        lo = p.extra[0]
+        j = i
+        n = 0
+        while True:
+            e = eval_peg(g, classes, p.args[0], w, j)
+            if e is None or e == j:
+                break
+            j = e
+            n += 1
+        return j if n >= lo else None
     if k == "paths":
         for a in p.args:
             j = eval_peg(g, classes, a, w, i)
